@@ -207,12 +207,21 @@ fn monotone(ctx: &mut Ctx) {
         let seed = ctx.seed;
         let out = guarded(|| {
             let mut r = Rng::for_case(seed, "c04.mono", idx);
-            let (mut rules, target) = if r.chance(1, 2) {
-                targeted_list(&mut r)
-            } else {
-                let l = gen::gen_list(&mut r, &Profile::ALL, 14);
-                let q = gen_request(&mut r, &l);
-                (l, q)
+            let (mut rules, target) = match r.below(6) {
+                0..=2 => targeted_list(&mut r),
+                3 => {
+                    // token-less rules indexed under their initiator sites (one shared object in
+                    // several buckets), plus a few ordinary ones
+                    let mut l = gen::gen_domain_cluster(&mut r, &Profile::ALL);
+                    l.extend(gen::gen_list(&mut r, &Profile::ALL, 4));
+                    let q = gen_request(&mut r, &l);
+                    (l, q)
+                }
+                _ => {
+                    let l = gen::gen_list(&mut r, &Profile::ALL, 14);
+                    let q = gen_request(&mut r, &l);
+                    (l, q)
+                }
             };
             // L must not cancel x by accident through a badfilter generated for another rule: allowed,
             // monotonicity must hold anyway.
